@@ -43,11 +43,17 @@ func modeOf(a string) mode {
 }
 
 var (
-	alphaMu    sync.Mutex
+	alphaMu    sync.RWMutex
 	alphaCache = map[string]alphabet.Alphabet{}
 )
 
 func alpha(def string) alphabet.Alphabet {
+	alphaMu.RLock()
+	a, ok := alphaCache[def]
+	alphaMu.RUnlock()
+	if ok {
+		return a
+	}
 	alphaMu.Lock()
 	defer alphaMu.Unlock()
 	if a, ok := alphaCache[def]; ok {
